@@ -85,6 +85,35 @@ impl Prop for P {
                 }
             }
         }
+        // the same accepted sequence with rejected calls in between - bursts of two stragglers (keys smaller
+        // than the last accepted one) and a duplicate - whose errors the caller ignores: what a lookup
+        // returns depends on the accepted keys alone
+        if ops.len() >= 3 && ops.len() <= 300 {
+            let mut dirty: Vec<Op> = vec![];
+            for (i, o) in ops.iter().enumerate() {
+                dirty.push(o.clone());
+                if i >= 2 && i % 2 == 0 && ops[i - 2].key() < o.key() && ops[i - 1].key() < o.key() {
+                    dirty.push(ops[i - 2].clone());
+                    dirty.push(ops[i - 1].clone());
+                    if i % 4 == 0 {
+                        dirty.push(ops[i - 2].clone());
+                    }
+                }
+            }
+            let o = exec_build("calls", "raw", 0, drows(), dcols(), &dirty);
+            match o.bytes.and_then(|b| Fst::new(b).ok()) {
+                None => x = "a history with ignored rejected calls does not finish or open".into(),
+                Some(fd) => {
+                    for (i, p) in probes.iter().enumerate() {
+                        let got = format!("{}/{}", fd.get(p).map(|o| o.value().to_string()).unwrap_or("~".into()), fd.contains_key(p) as u8);
+                        if got != res[i] {
+                            x = format!("after ignored rejected calls (two stragglers in a row): probe {} gives {} but {} for the accepted calls alone", hex(p), got, res[i]);
+                        }
+                    }
+                }
+            }
+            xcount("lookups_after_ignored_rejected_calls");
+        }
         // the same bytes attached to handles that were opened on OTHER files (map_data swaps the contents
         // of a handle): lookups answer for the bytes the handle holds now
         for other in [fst::Set::from_iter(vec!["x"]).unwrap().into_fst().into_inner(), fst::Map::from_iter((0..300u32).map(|i| (format!("k{:05}", i), i as u64 * 3))).unwrap().into_fst().into_inner()] {
